@@ -38,6 +38,19 @@ def run(ctx):
     res.rules.update({"X-NODES": "the per-order sub-hypergraph keeps ALL nodes when keep_isolated_nodes is set (rows of the per-order matrices)", "X-WEIGHT": "weights reach the per-order sub-hypergraph", "X-FLAG": "same weightedness", "X-EMETA": "(shared with C05)", "X-NMETA": "(shared with C05)", "X-DELEG": "(shared with C05)"})
     with res.guard("X.check_extractionctx, res, Hypergraph.get_edges"):
         X.check_extraction(ctx, res, "Hypergraph.get_edges")
+    # ---- the encoder is fitted on the current node set: get_mapping answers from the live tables, or from a memo that every
+    #      node-set change rebinds (E-CACHE)
+    res.rules.update({"E-PURE": "get_mapping and the matrix builders leave the hypergraph unchanged (a memoised encoder is not a change by itself)", "E-CACHE": "a value cached on the hypergraph by a query (fitted encoder) is rebound by every method that changes the tables it was computed from"})
+    from ..effects import Effects, check_pure
+
+    eff = Effects(ctx)
+    for cls in ("Hypergraph", "DirectedHypergraph", "TemporalHypergraph", "MultiplexHypergraph"):
+        if "get_mapping" in ctx.methods(cls):
+            with res.guard(f"E-PURE / E-CACHE of {cls}.get_mapping"):
+                check_pure(ctx, eff, res, f"{cls}.get_mapping", roots=("self",))
+    with res.guard("E-PURE of linalg.binary_incidence_matrix"):
+        bi = ctx.require("linalg.binary_incidence_matrix")
+        check_pure(ctx, eff, res, "linalg.binary_incidence_matrix", roots=(bi.params[0].arg,))
     # ---- K-ENC
     with res.guard("K-ENC"):
         v = ctx.view("linalg.binary_incidence_matrix")
@@ -226,6 +239,8 @@ def _row_ordered(v, src):
         return "unknown", "definition of the diagonal not found"
     if isinstance(src, ast.ListComp) and len(src.generators) == 1:
         it = src.generators[0].iter
+        if isinstance(it, ast.Name):
+            it = v.inline(it, depth=1)  # rows = sorted(...); [d[n] for n in rows]
         if isinstance(it, ast.Call) and isinstance(it.func, ast.Name) and it.func.id == "range":
             return "ok", ""
         if isinstance(it, ast.Call) and isinstance(it.func, ast.Name) and it.func.id == "sorted" and it.args:
@@ -250,6 +265,9 @@ def _row_ordered(v, src):
                 return "violation", f"rows are ordered by {dk!r}, not by row index"
             return "unknown", "unrecognised sort key"
         ik = unrole(v.kind(it))
+        tableish = isinstance(ik, Dct) or (isinstance(it, ast.Call) and isinstance(it.func, ast.Attribute) and it.func.attr in ("keys", "values", "items", "get_nodes"))
+        if not tableish:
+            return "unknown", f"order of `{norm(it)}` not decided"
         return "violation", f"the diagonal is enumerated by iterating {norm(it)} ({ik!r}): that is insertion order, not row order"
     # list(d.values()) and friends
     for x in ast.walk(src):
